@@ -43,7 +43,9 @@ int main() {
 	while (std::getline(std::cin, line)) {
 		guarded([&]() {
 			Toks t(line); t.expect("incl"); TA a = readTA(t); TA b = readTA(t);
-			bool sweep = !t.done() && t.word() == "SWEEP";
+			bool sweep = false;
+			g_salt = 0;
+			while (!t.done()) { std::string w = t.word(); if (w == "SWEEP") sweep = true; else if (w == "SALT") g_salt = t.num(); }
 			BU Abu = loadBdd<BU>(a), Bbu = loadBdd<BU>(b);
 			TD Atd = loadBdd<TD>(a), Btd = loadBdd<TD>(b);
 			std::ostringstream os; os << "V";
